@@ -68,6 +68,8 @@ pub struct Alphabet {
     pub sv_multiples: bool,
     /// further fixed amounts offered for deposit / withdraw / borrow / repay
     pub extra_amounts: Vec<u64>,
+    /// risk-admin actions on banks in token-less repayment mode (offered only where the flags allow)
+    pub tokenless: bool,
 }
 
 impl Alphabet {
@@ -95,6 +97,7 @@ impl Alphabet {
             rich_amounts: false,
             sv_multiples: false,
             extra_amounts: vec![],
+            tokenless: false,
         }
     }
 }
@@ -278,6 +281,28 @@ impl Model for Hist {
                             if fl >= 1 {
                                 v.push(Action::Liquidate { liquidator: lq, liquidatee: le, asset: ab, liab: lb, amt: fl });
                             }
+                        }
+                    }
+                }
+            }
+        }
+        if al.tokenless {
+            for &b in &al.banks {
+                let Some(bank) = world::try_bank(s, &self.w.banks[b].key) else { continue };
+                if bank.flags & TOKENLESS_REPAYMENTS_ALLOWED != 0 {
+                    v.push(Action::ForceTokenlessComplete { b });
+                    for &u in &al.users {
+                        let (_, lv, _) = self.position(s, u, b);
+                        if lv > rf::qfrac(1, 10_000) {
+                            v.push(Action::TokenlessRepay { u, b });
+                        }
+                    }
+                }
+                if bank.flags & TOKENLESS_REPAYMENTS_COMPLETE != 0 {
+                    for &u in &al.users {
+                        let (_, _, has) = self.position(s, u, b);
+                        if has {
+                            v.push(Action::Purge { u, b });
                         }
                     }
                 }
@@ -498,7 +523,9 @@ impl StepOracle for SolvencyOracle {
                 });
             }
             // absolute form for states that descend from instruction-built roots only
-            if !c.pre.forged && qn.op_state != 3 {
+            // (a bank flagged for token-less repayment may carry a sanctioned write-off from any
+            // earlier step: for it only the per-step form above is demanded)
+            if !c.pre.forged && qn.op_state != 3 && (qn.flags & TOKENLESS_REPAYMENTS_ALLOWED) == 0 {
                 let g = qn.gap();
                 let abs_allow = allow * rf::qi(64);
                 if g.is_negative() && (-g.clone()) > abs_allow {
